@@ -12,8 +12,11 @@ import IrVerif.Lemmas.ScopeExtSerOk
 import IrVerif.Lemmas.ScopeExtDevCert
 import IrVerif.Lemmas.ScopeCert
 import IrVerif.Lemmas.ScopeExtModelTop
+import IrVerif.Props.C03Ext9
 import IrVerif.Lemmas.ScopeSerdeBridgeOK
 import IrVerif.Lemmas.ScopeSerdeBridgeSub7
+import IrVerif.Lemmas.ScopeSerdeBridgeModel3
+import IrVerif.Lemmas.ScopeSerdeBridgeModel9f
 namespace IrVerif.Scope
 
 /-! ### the write log only changes tensor names -/
@@ -762,5 +765,31 @@ example : ∃ w, deserializeE exampleExt = .ok w ∧ ReloadableE w ∧ isOkB (se
   split at h
   · next w hw => exact ⟨w, hw, deserializeE_reloadableE _ _ hw, h⟩
   · exact absurd h (by simp)
+
+
+/-! ### the attribute layer (`Model/ScopeAttr.lean`, theorems `C03_attr_*` in `Lemmas/ScopeAttrProps.lean`) -/
+
+/-- **C03_roundtrip_attrs**: `C03_roundtrip_decorated` and `C03_attr_roundtrip` together, for an IR model with
+    its decorations and its NODE ATTRIBUTES: serialization raises in the decorations or in the attributes, or
+    the reloaded model is isomorphic to the original in its core (`IsoM`), carries the canonical form of its
+    decorations, and carries the attributes of the original — same names in the same order, types, payload
+    tokens, reference names, graphs at the same places; identical when no attribute doc_string is `""`.
+    Hypotheses: `ReloadableM` (core), `wfModelDB`, `wfModelAB` (dicts with distinct keys; reference attributes
+    with a non-empty name and a type that exists) — all decidable and evaluated on every generated model. -/
+theorem C03_roundtrip_attrs (w : YWorld) (h : ReloadableM w.x.core) (hw : wfModelDB w.x.deco = true)
+    (ha : wfModelAB w.attrs = true) :
+    (∃ e, serializeY w = .error (.x (.deco e))) ∨ (∃ e, serializeY w = .error (.attr e)) ∨
+    ∃ (w1 : YWorld) (P : YModelP) (D : YWorld) (σ : Nat → Nat),
+      serializeY w = .ok (w1, P) ∧ deserializeY P = .ok D ∧ IsoM w.x.core D.x.core σ ∧
+      D.x.deco = canonModelD w.x.deco ∧ D.attrs = canonModelA w.attrs ∧
+      (normModelAB w.attrs = true → D.attrs = w.attrs) := by
+  rcases C03_roundtrip_decorated w.x h hw with ⟨e, he⟩ | ⟨w1, P, D, σ, h1, h2, h3, h4⟩
+  · exact .inl ⟨e, by simp only [serializeY, he]⟩
+  · cases hq : serModelA w.attrs with
+    | error e => exact .inr (.inl ⟨e, by simp only [serializeY, h1, hq]⟩)
+    | ok Qa =>
+      obtain ⟨r1, _, _⟩ := C03_attr_roundtrip w.attrs Qa ha hq
+      exact .inr (.inr ⟨⟨w1, w.attrs⟩, ⟨P, Qa⟩, ⟨D, canonModelA w.attrs⟩, σ, by simp only [serializeY, h1, hq],
+        by simp only [deserializeY, h2, r1], h3, h4, rfl, fun hn => canonModelA_id w.attrs hn⟩)
 
 end IrVerif.Scope
